@@ -313,29 +313,41 @@ def lost_tokens(module, node):
 
 
 class Module:
+    """one source file; parsing, normalisation and indexing happen on first use (a check touches a handful of the 48
+    modules)"""
+
+    _LAZY = ("tree", "defs", "all_funcs", "imports", "n_normalised", "n_alpha", "new_helpers")
+
     def __init__(self, name: str, path: Path, source: str):
         self.name = name
         self.path = path
         self.source = source
-        self.tree = ast.parse(source, filename=str(path))
+        self.rel = None
+        self.src_rel = None
+        try:
+            idx = path.parts.index("src")
+            self.src_rel = str(Path(*path.parts[idx:]))
+        except ValueError:
+            pass
+
+    def __getattr__(self, item):
+        if item in Module._LAZY:
+            self._load()
+            return self.__dict__[item]
+        raise AttributeError(item)
+
+    def _load(self):
+        self.tree = ast.parse(self.source, filename=str(self.path))
         self.n_normalised = {}
         self.n_alpha = 0
-        self.src_rel = None
         self.new_helpers = frozenset()
         if os.environ.get("PDTSA_NORMALISE", "1") != "0":
-            rel = None
-            try:
-                idx = path.parts.index("src")
-                rel = str(Path(*path.parts[idx:]))
-            except ValueError:
-                pass
+            rel = self.src_rel
             helpers = new_private_helpers(self.tree, rel) if rel else frozenset()
-            self.src_rel = rel
             self.new_helpers = helpers
             self.n_normalised = _normalise_tree(self.tree, helpers)
             if rel:
                 self.n_alpha = canonical_local_names(self.tree, rel)
-        self.rel = None
         for parent in ast.walk(self.tree):
             for child in ast.iter_child_nodes(parent):
                 child._parent = parent  # type: ignore[attr-defined]
